@@ -108,6 +108,42 @@ def _native_tmp_replay1(fmt, from_string, keep, text, gz=False):
         shutil.rmtree(d, ignore_errors=True)
 
 
+def _native_noraise_replay(fmt, from_string, keep, gz=False, force=False):
+    """the `.noraise` clauses: does create_db raise on the ordinary inputs?  (whatever is left behind is the business
+    of the other clauses - a replay that looked at files would "confirm" a raise with an unrelated observation)"""
+    import tempfile, os, shutil
+    last = None
+    for text in (_GFF_TEXTS if fmt == "gff3" else _GTF_TEXTS):
+        d = tempfile.mkdtemp()
+        old = tempfile.tempdir
+        tempfile.tempdir = d
+        try:
+            out = os.path.join(d, "out.db")
+            if from_string:
+                src = text
+            else:
+                src = os.path.join(d, "in.txt.gz" if gz else "in.txt")
+                if gz:
+                    import gzip
+                    with gzip.open(src, "wt") as fh:
+                        fh.write(text)
+                else:
+                    open(src, "w").write(text)
+            raised = None
+            try:
+                gffutils.create_db(src, out, from_string=from_string, _keep_tempfiles=keep, force=force)
+            except Exception as e:
+                raised = "%s: %s" % (type(e).__name__, e)
+            last = {"inputs": {"fmt": fmt, "from_string": from_string, "_keep_tempfiles": keep, "force": force, "gz": gz, "text": text},
+                    "expected": "no exception", "observed": raised or "no exception", "violates": raised is not None}
+            if raised:
+                return last
+        finally:
+            tempfile.tempdir = old
+            shutil.rmtree(d, ignore_errors=True)
+    return last
+
+
 def _native_force_replay(fmt):
     """a foreign intermediate file (another import in progress) in the shared temp dir must survive a force=True run"""
     import tempfile, os, shutil
@@ -141,7 +177,8 @@ def unit_footprint(U):
                 replay = (lambda m, fmt=fmt: _native_force_replay(fmt)) if force else (lambda m, fmt=fmt, from_string=from_string, keep=keep, gz=gz: _native_tmp_replay(fmt, from_string, keep, gz=gz))
                 for p in U.explore(run, it):
                     if p.kind != "return":
-                        U.prove(base + ".noraise#p%d" % p.index, "create_db raises nothing (got %r)" % (p.value,), p.pc, z3.BoolVal(False), {}, replay=replay)
+                        U.prove(base + ".noraise#p%d" % p.index, "create_db raises nothing (got %r)" % (p.value,), p.pc, z3.BoolVal(False), {},
+                                replay=lambda m, fmt=fmt, from_string=from_string, keep=keep, gz=gz, force=force: _native_noraise_replay(fmt, from_string, keep, gz=gz, force=force))
                         continue
                     effs = p.ctx.effects
                     created = [e[1] for e in effs if e[0] == "tmp-create"]
